@@ -77,6 +77,18 @@ Definition top_rows (es : list (string * Z)) (unit out : string) (ratio : Q) : l
   let total := fold_right (fun e a => (Z.abs (snd e) + a)%Z) 0%Z es in
   top_rows_loop (sort_abs es) 0%Z total unit (select_output_unit es total unit out ratio) ratio.
 
+(* report.ProfileLabels, the "Duration" line of the legend: the total is related to the wall-clock
+   duration (as a percentage) only when it is a time: Scale(total, unit, "nanoseconds") must answer in ns *)
+Definition duration_line (es : list (string * Z)) (unit out : string) (ratio : Q) (dur : Z) : string :=
+  if (dur =? 0)%Z then "" else
+  let total := fold_right (fun e a => (Z.abs (snd e) + a)%Z) 0%Z es in
+  let out' := select_output_unit es total unit out ratio in
+  let '(tn, tu) := scale_f uts total unit "nanoseconds" in
+  let pct := if String.eqb tu "ns" && negb (feqb tn f_zero) && fltb (fabs tn) (of_Z (2 ^ 63))
+             then "(" ++ percentage_fl (trunc_Z tn) dur ++ ")" else "" in
+  "Duration: " ++ label_f uts dur "nanoseconds" ++ ", Total samples = "
+    ++ scaled_label_f uts (ratio_value ratio total) unit out' ++ " " ++ pct.
+
 (* the implementation is compared, bit for bit, with the float model M_MeasureF (same operations in
    the same order as measurement.go); the exact-rational model M_Measure is what the specification
    below and the theorems of P_C15 are about *)
@@ -91,7 +103,9 @@ Definition run_C15 (i : term) : term :=
     TL [TS (label_f uts (gz (gn i 1)) (gs (gn i 3))); TS (label_f uts (gz (gn i 2)) (gs (gn i 3)))]
   else if String.eqb op "pct" then TS (percentage_fl (gz (gn i 1)) (gz (gn i 2)))
   else if String.eqb op "toptext" then
-    TL [TS "ok"; TL (top_rows (map (fun e => (gs (gn e 0), gz (gn e 1))) (gl (gn i 1))) (gs (gn i 2)) (gs (gn i 3)) (to_Q (gn i 4)))]
+    let es := map (fun e => (gs (gn e 0), gz (gn e 1))) (gl (gn i 1)) in
+    TL [TS "ok"; TL (top_rows es (gs (gn i 2)) (gs (gn i 3)) (to_Q (gn i 4)));
+        TS (duration_line es (gs (gn i 2)) (gs (gn i 3)) (to_Q (gn i 4)) (gz (gn i 5)))]
   else if String.eqb op "common" then
     match common_value_type_f uts (map (fun t => (gs (gn t 0), gs (gn t 1))) (gl (gn i 1))) with
     | CvtNil => TL [TS "nil"]
@@ -295,7 +309,21 @@ Definition spec_C15 (i o : term) : bool :=
     let es := map (fun e => (gs (gn e 0), gz (gn e 1))) (gl (gn i 1)) in
     String.eqb (gs (gn o 0)) "ok" && (List.length (gl (gn o 1)) =? List.length es)%nat &&
     rows_pct_ok es (gl (gn o 1)) 0%Z (fold_right (fun e a => (Z.abs (snd e) + a)%Z) 0%Z es) &&
-    (negb (String.eqb (gs (gn i 3)) "minimum") || min_unit_ok es (gs (gn i 2)) (to_Q (gn i 4)) (gl (gn o 1)))
+    (negb (String.eqb (gs (gn i 3)) "minimum") || min_unit_ok es (gs (gn i 2)) (to_Q (gn i 4)) (gl (gn o 1))) &&
+    (* the legend relates the total to the duration only within the time family, as the absolute ratio *)
+    (match split_at "(" (gs (gn o 2)) "" with
+     | (_, Some rest) =>
+         match family_of uts (gs (gn i 2)) with
+         | Some (ut, fu) =>
+             existsb (fun w => String.eqb (u_name w) "ns") (ut_units ut) &&
+             (let total := fold_right (fun e a => (Z.abs (snd e) + a)%Z) 0%Z es in
+              let tn := Qfloor (inject_Z total * u_factor fu) in
+              Qle_bool (Qabs (parse_pct (trim_suffix "%" (trim_spaces (fst (split_at ")" rest "")))) - pct_ratio tn (gz (gn i 5))))
+                       ((1 # 199) + (pct_ratio tn (gz (gn i 5))) * (1 # 19) + eps))
+         | None => false
+         end
+     | (_, None) => true
+     end)
   else if String.eqb op "common" then
     (* harmonising picks the FINEST unit of the list (so that no profile loses precision): every
        input unit is a whole-or-larger multiple of the chosen one *)
